@@ -76,6 +76,14 @@ for nm, extra in [("create", []), ("delete", []), ("nullify", []), ("length", []
 S(id="VLO.grow", props=["C19", "C12"], spec="native/vlo_grow.c", mode="N", link=["vlobject.c", "allocate.c"], harness="main",
   params={"quick": {"K": 48}, "thorough": {"K": 160}}, bound="initial length 0..K, appended 1..K, initial capacity 1,5,9; realloc always moves and poisons",
   functions=["_VLO_expand_memory", "_VLO_tailor_function"], what="contents, length and capacity across realloc-based growth and tailoring (outside CBMC's memory model)")
+S(id="HT.history.native", props=["C19"], spec="native/ht_enum.c", mode="N", link=["hashtab.c", "allocate.c"], harness="main",
+  params={"quick": {"LEN": 6}, "thorough": {"LEN": 7}}, bound="every sequence of <= 6 (thorough 7) insert/remove/find operations over 4 keys, 5 hash functions (one constant), table growing from 3 slots",
+  functions=["create_hash_table", "find_hash_table_entry", "expand_hash_table", "remove_element_from_hash_table_entry", "hash_table_elements_number"],
+  what="history-level statement through growth and deletions: find hits exactly the keys inserted and not removed; element count = cardinality")
+S(id="HT.cpp.native", props=["C19", "C16"], spec="native/ht_enum_cpp.cpp", mode="N", cc="clang++", link=["hashtab.cpp", "allocate.c"], harness="main",
+  params={"quick": {"LEN": 5}, "thorough": {"LEN": 7}}, bound="every sequence of <= 5 (thorough 7) insert/remove/find operations over 4 keys, 5 hash functions, table growing from 3 slots",
+  functions=["hash_table::hash_table", "hash_table::find_entry", "hash_table::expand_hash_table", "hash_table::remove_element_from_entry"],
+  what="C++ twin (class hash_table of hashtab.cpp): same history-level statement as HT.history.native")
 S(id="HT.hpn.native", props=["C19"], spec="native/ht_prime.c", mode="N", link=["hashtab.c", "allocate.c"], harness="main",
   params={"quick": {"K": 20000}, "thorough": {"K": 2000000}}, bound="all requested sizes 0..K",
   functions=["higher_prime_number"], what="assumed clause of hpn_assumed_c: result is a prime in (n, 2n+3]")
